@@ -33,25 +33,25 @@ Chk(ok, kind, e, name) == IF ok THEN TRUE ELSE Fail(kind, e, name)
 Same == subs' = subs /\ reg' = reg
 
 PropOf(e) ==
-  CASE e.a = "Subscribe" -> P_Subscribe(e.args.g, e.args.c, e.args.e, e.args.bad)
+  CASE e.a = "Subscribe" -> P_Subscribe(e.args.q)
     [] e.a = "Burst" -> P_Burst(e.args.g, e.args.cs, e.args.e)
     [] e.a = "Cancel" -> P_Cancel(e.args.s)
     [] e.a = "LoopExit" -> P_LoopExit(e.args.s)
     [] OTHER -> Same
 
 ImplOf(e) ==
-  CASE e.a = "Subscribe" -> DoSubscribe(e.args.g, e.args.c, e.args.e, e.args.bad)
+  CASE e.a = "Subscribe" -> DoSubscribe(e.args.q)
     [] e.a = "Burst" -> DoBurst(e.args.g, e.args.cs, e.args.e)
     [] e.a = "Cancel" -> DoCancelByClient(e.args.s)
     [] e.a = "LoopExit" -> DoLoopExit(e.args.s)
     [] OTHER -> Same
 
 \* the registered entry carries the ids of the subscription it points to
-RegEntryOK == \A g \in Groups :
-   IF reg[g] = 0 THEN regce[g].s = 0
-   ELSE reg[g] \in Idx /\ regce[g].c = subs[reg[g]].c /\ regce[g].e = subs[reg[g]].e
-\* subscriberCount = number of loops that have not returned
-NLoopsOK == nloops = Cardinality({s \in Idx : subs[s].loop})
+RegEntryOK == \A n \in Nodes, g \in Groups :
+   IF reg[n][g] = 0 THEN regce[n][g].s = 0
+   ELSE reg[n][g] \in Idx /\ regce[n][g].c = subs[reg[n][g]].c /\ regce[n][g].e = subs[reg[n][g]].e
+\* subscriberCount of each server's partition object = number of its loops that have not returned
+NLoopsOK == \A n \in Nodes : nloops[n] = Cardinality({s \in Idx : subs[s].n = n /\ subs[s].loop})
 
 TraceNext ==
   /\ Trace[l].a # "End"
